@@ -21,4 +21,16 @@ PROPS = {
             "model == code by differential execution of keygen / sign / verify with the Gallina SHA-256 (SHAKE variants: implementation-only oracle)",
         ],
     },
+    "C04": {
+        "families": [{"name": "c04"}],
+        "assumptions": [
+            "theorem is about Model/SignCore.sign_core (order of effects for every blob/message/callback); tied to hss_sign_core by the correspondence over every failure point, comparing result class, signature bytes and the recorded callback invocations",
+        ],
+    },
+    "C11": {
+        "families": [{"name": "c11"}],
+        "assumptions": [
+            "totality theorems are about the Gallina model (Panic = the Rust code unwinds); the aux-buffer inputs are covered under C10",
+        ],
+    },
 }
